@@ -120,7 +120,12 @@ MVal generate(const std::string& profile, uint64_t seed, uint64_t idx) {
     else if (src < 11) plan.set("seed_ix", MVal::uinteger(r.below(seeds.size())));
     else {
         GenOpts go; go.max_depth = 1 + (int)r.below(4); go.max_width = 1 + (int)r.below(5); go.big = r.chance(1, 10); go.root_container = !r.chance(1, 6);
-        plan.set("doc", gen_value(r, go));
+        MVal gd = gen_value(r, go);
+        if (!go.root_container && gd.k != MVal::Arr && gd.k != MVal::Obj && r.coin()) {       // top-level numbers: the only JSON texts whose prefixes can be complete
+            static const double tops[] = {1.5, -0.25, 6.02e23, 1e-7, -1.0e300, 12.0, 2.5e-10, 1e21, -3.0e-5};
+            gd = r.coin() ? MVal::dbl(r.pick(tops)) : MVal::integer(-(int64_t)r.below(100000));
+        }
+        plan.set("doc", gd);
         plan.set("variant", MVal::uinteger(r.next() >> 8));
     }
     plan.set("options", gen_options(r, fmt));
@@ -523,36 +528,84 @@ static Result exec_c03_c05(MVal& plan, Stats& st) {
         }
     }
     // ---- C05: encoders writing into a sink that fails after k bytes
-    if (c05 && sinksweep && plan.has("doc")) {
+    // a sink execution is replayed from the document, not from the input bytes: keep "doc" and name the execution
+    auto sink_narrow = [](MVal& p, int big, size_t cap, int kind) {
+        for (const char* k : {"seed_ix", "faults", "packet", "sub", "only_exec", "input_hex", "expect"}) p.erase(k);
+        p.set("modes", MVal::arr());
+        MVal ds = MVal::arr(); MVal s = MVal::obj(); s.set("kind", MVal::str("sinksweep")); ds.push(s); p.set("deliveries", ds);
+        MVal so = MVal::obj(); so.set("big", MVal::uinteger((uint64_t)big)); so.set("cap", MVal::uinteger(cap)); so.set("kind", MVal::uinteger((uint64_t)kind)); p.set("sink_only", so);
+    };
+    const MVal sink_plan0 = plan;
+    const MVal* sink_only = sink_plan0.find("sink_only");
+    for (int big = 0; big < 2; ++big) if (c05 && sinksweep && plan.has("doc") && R.res.ok) {
+        if (sink_only && (int)sink_only->getu("big") != big) continue;
         std::string text = plan_text(plan, "doc");
+        if (big) {
+            // output larger than the encoders' internal 16 KiB stream buffer: the failure then happens while the
+            // encoder is still producing, and it keeps writing into a stream that has already failed
+            if ((plan.getu("idx") % 3 != 0 && !sink_only) || text.empty()) break;
+            size_t n = std::min<size_t>(6000, 49152 / text.size() + 2);
+            std::string rep = "["; for (size_t i = 0; i < n; ++i) { if (i) rep.push_back(','); rep += text; } rep.push_back(']');
+            text.swap(rep); st.inc("sink.big_documents");
+        }
         Outcome full = R.api.encode_to_sink(text, SIZE_MAX, 1, plan.getu("variant"));
         size_t total = (size_t)full.delivered, step = total > 40 ? (total + 39) / 40 : 1;
-        Delivery dd; dd.kind = "sink";
-        if (!full.violation.empty()) R.fail(full.violation, full.vdetail, "sink", dd);
-        for (size_t cap = 0; cap < total && R.res.ok; cap += step) {
+        Delivery dd; dd.kind = big ? "sink_big" : "sink";
+        if (!full.violation.empty()) { R.fail(full.violation, full.vdetail, "sink", dd); if (!R.res.ok) { plan = sink_plan0; sink_narrow(plan, big, total ? total - 1 : 0, 1); } }
+        std::vector<size_t> caps;
+        if (!big) for (size_t cap = 0; cap < total; cap += step) caps.push_back(cap);
+        else for (size_t cap : {(size_t)0, (size_t)1, (size_t)4095, (size_t)16383, (size_t)16384, (size_t)16385, (size_t)32768, total / 2, total - 1}) if (cap < total) caps.push_back(cap);
+        if (sink_only) { caps.clear(); caps.push_back((size_t)sink_only->getu("cap")); }
+        for (size_t cap : caps) { if (!R.res.ok) break;
             for (int kind = 1; kind <= 2; ++kind) {
+                if (sink_only && (int)sink_only->getu("kind") != kind) continue;
                 if (!R.want()) continue;
+                if (R.only_exec) { MVal pub = sink_plan0; sink_narrow(pub, big, cap, kind); publish_plan(pub); }
                 uint64_t blocks0 = ledger::live_blocks();
                 Outcome o = R.api.encode_to_sink(text, cap, kind, plan.getu("variant"));
+                uint64_t blocks1 = ledger::live_blocks();       // before any harness bookkeeping allocates
                 st.inc("executions"); st.inc("exec.sink"); st.inc("faults.sink_failure_fired", o.stream_failed);
                 if (!o.violation.empty() && !(kind == 2 && o.violation.find("runtime_error") != std::string::npos)) R.fail(o.violation, o.vdetail + " (sink capacity " + std::to_string(cap) + ")", "sink", dd);
                 else if (o.error.empty() && o.stream_failed && o.events == "good") R.fail("sink-failure-unreported", "sink accepted only " + std::to_string(cap) + " of " + std::to_string(total) + " bytes but the stream still reports good()", "sink", dd);
                 uint64_t own = 0; for (const std::string* s : {&o.events, &o.error, &o.violation, &o.vdetail}) if (s->capacity() > 15) ++own;
-                if (R.res.ok && ledger::live_blocks() != blocks0 + own) R.fail("leak", "blocks still allocated after encoding into a failing sink", "sink", dd);
+                if (R.res.ok && blocks1 != blocks0 + own) R.fail("leak", std::to_string((long long)blocks1 - (long long)blocks0 - (long long)own) + " block(s) still allocated after encoding into a failing sink", "sink", dd);
+                if (!R.res.ok) { plan = sink_plan0; sink_narrow(plan, big, cap, kind); }     // R.fail narrowed to the input bytes; a sink run needs the document
                 st.nontrivial(mix3(fnv1a(R.fmt + "sink"), cap * 4 + (uint64_t)kind, fnv1a(text)));
             }
         }
     }
     // ---- C05: every strict prefix of a VALID binary document must be refused (self-delimiting formats): a truncated
     //      input that decodes "successfully" was completed from bytes that never arrived
-    if (c05 && !R.api.text && plan.has("doc") && ref.count("reader") && ref["reader"].error.empty()) {
+    // JSON text: a strict prefix of a valid document that stops before its last non-whitespace character is never a
+    // complete JSON text, except that a prefix of a top-level NUMBER may itself be a complete number.
+    auto complete_json_number = [](const std::string& t) {
+        size_t i = 0, n = t.size();
+        while (i < n && (t[i] == ' ' || t[i] == '\n' || t[i] == '\r' || t[i] == '\t')) ++i;
+        if (i < n && t[i] == '-') ++i;
+        if (i >= n) return false;
+        if (t[i] == '0') ++i; else if (t[i] >= '1' && t[i] <= '9') { while (i < n && isdigit((unsigned char)t[i])) ++i; } else return false;
+        if (i < n && t[i] == '.') { ++i; size_t d0 = i; while (i < n && isdigit((unsigned char)t[i])) ++i; if (i == d0) return false; }
+        if (i < n && (t[i] == 'e' || t[i] == 'E')) { ++i; if (i < n && (t[i] == '+' || t[i] == '-')) ++i; size_t d0 = i; while (i < n && isdigit((unsigned char)t[i])) ++i; if (i == d0) return false; }
+        return i == n;
+    };
+    bool json_doc = R.fmt == "json" && plan.has("doc");
+    if (c05 && (!R.api.text || json_doc) && plan.has("doc") && ref.count("reader") && ref["reader"].error.empty()) {
         std::string valid = R.api.encode(plan_text(plan, "doc"), plan.getu("variant"));
         Ctx cv = R.cx; cv.B = &valid;
         Outcome whole = R.api.run("reader", contig, cv);
-        if (whole.error.empty() && valid.size() > 1) {
-            size_t VL = valid.size(), step = VL > 96 ? (VL + 95) / 96 : 1;
+        size_t core_end = valid.size();
+        bool top_number = false;
+        if (json_doc) {
+            while (core_end > 0 && (valid[core_end - 1] == ' ' || valid[core_end - 1] == '\n' || valid[core_end - 1] == '\r' || valid[core_end - 1] == '\t')) --core_end;
+            const MVal* dm = plan.find("doc"); top_number = dm && (dm->k == MVal::Int || dm->k == MVal::UInt || dm->k == MVal::Dbl);
+            if (valid.find('/') != std::string::npos && valid.find("/*") != std::string::npos) core_end = 0;   // rendered with comments: no claim
+            if (valid.find("//") != std::string::npos) core_end = 0;
+        }
+        if (whole.error.empty() && core_end > 1) {
+            size_t VL = core_end, step = VL > 96 ? (VL + 95) / 96 : 1;
             for (size_t t = 1; t < VL; t += step) {
                 std::string prefix = valid.substr(0, t);
+                if (json_doc && top_number && complete_json_number(prefix)) continue;
                 std::string saveB = R.B; R.B = prefix; R.cx.B = &R.B; R.expect_error = true;
                 for (int del = 0; del < 2 && R.res.ok; ++del) {
                     Delivery d; if (del == 1) { d.kind = "stream"; d.chunk = 3; d.getarea = 2; }
@@ -560,7 +613,8 @@ static Result exec_c03_c05(MVal& plan, Stats& st) {
                         if (!R.want()) continue;
                         Outcome o = R.exec(m, d);
                         R.c05_flags(o, m, d);
-                        st.inc("faults.truncation_of_valid_document");
+                        st.inc(json_doc ? "faults.truncation_of_valid_json_text" : "faults.truncation_of_valid_document");
+                        if (json_doc && top_number) st.inc("reach.truncated_top_level_number");
                         st.nontrivial(mix3(fnv1a(R.fmt + m + "trunc"), t * 2 + (uint64_t)del, fnv1a(valid)));
                         if (!R.res.ok) return R.res;
                     }
